@@ -88,3 +88,46 @@ REG.fn(D, "dijkstra", prop="C11", ret="Result[opt[list[U<S>]]]",
        ],
        loops={1: LoopSpec(invariants=DI),
               2: LoopSpec(invariants=DI + ["has(g, current)", "has(closed, current)"])})
+
+# ------------------------------------------------------------------ astar: same path-validity contract
+A = "solvor/a_star.py"
+REG.callback("heur", ["U<S>"], "real", pure=False)
+AI = [x.replace("heap[j][2]", "heap[j][3]") for x in DI]
+REG.fn(A, "astar", prop="C11", ret="Result[opt[list[U<S>]]]",
+       types={"goal": "opaque", "neighbors": "fun:dnbr", "heuristic": "fun:heur", "is_goal": "fun:isgoal", "max_cost": "opt[real]",
+              "weight": "real", "pw": "map[U<S>,real]", "path": "list[U<S>]"},
+       ghost_before=[("g: dict[S, float] = {start: 0.0}", "pw", "lam(v, 0.0, sort='U<S>')")],
+       ghost_after=[("parent[neighbor] = current", "pw", "store(pw, neighbor, edge_cost)")],
+       ensures=[
+           "implies(result.status != 1 and result.status != 2, is_none(result.solution))",
+           "implies(result.status == 1, weight == 1)",
+           "implies(result.status == 1 or result.status == 2, not is_none(result.solution) and len(val(result.solution)) >= 1)",
+           "implies(result.status == 1 or result.status == 2, val(result.solution)[0] == start and get(g, start) == 0)",
+           "implies(result.status == 1 or result.status == 2, result.objective == get(g, val(result.solution)[len(val(result.solution)) - 1]))",
+           "implies(result.status == 1 or result.status == 2, forall(i, implies(0 <= i < len(val(result.solution)) - 1, Edge(val(result.solution)[i], val(result.solution)[i + 1], pw[val(result.solution)[i + 1]]) and get(g, val(result.solution)[i + 1]) == get(g, val(result.solution)[i]) + pw[val(result.solution)[i + 1]]), trig=val(result.solution)[i]))",
+       ],
+       loops={1: LoopSpec(invariants=AI), 2: LoopSpec(invariants=AI + ["has(g, current)", "has(closed, current)"])})
+
+# ------------------------------------------------------------------ bfs / dfs: a returned path is a genuine path
+BF_ = "solvor/bfs.py"
+REG.ghostfn("Nbr", ["U<S>", "U<S>"], "bool")  # Nbr(u, v): neighbors(u) offers v
+REG.callback("unbr", ["U<S>"], "list[U<S>]", pure=False,
+             post="forall(i, implies(0 <= i < len(result), Nbr(a0, result[i])), trig=result[i])")
+TI = [
+    "has(visited, start)", "not has(parent, start)",
+    "forall(v, implies(has(visited, v) and v != start, has(parent, v)), sorts={'v': 'U<S>'}, trig=has(visited, v))",
+    "forall(v, implies(has(parent, v), has(visited, v) and has(visited, get(parent, v)) and Nbr(get(parent, v), v)), sorts={'v': 'U<S>'}, trig=has(parent, v))",
+]
+PATH_OK = [
+    "implies(defined('path'), len(path) >= 1 and path[0] == start and result.objective == len(path) - 1)",
+    "implies(defined('path'), forall(i, implies(0 <= i < len(path) - 1, Nbr(path[i], path[i + 1])), trig=path[i]))",
+]
+for name, cont, st_ok in (("bfs", "queue", 1), ("dfs", "stack", 2)):
+    REG.fn(BF_, name, prop="C11", ret="Result[opaque]",
+           types={"goal": "opaque", "neighbors": "fun:unbr", "is_goal": "fun:isgoal", "path": "list[U<S>]",
+                  "parent": "dict[U<S>,U<S>]", "visited": "set[U<S>]", cont: "list[U<S>]"},
+           # `path` is the local holding the reconstructed path at the return that reports one
+           ensures=PATH_OK + [f"implies(defined('path'), result.status == {st_ok})"],
+           loops={1: LoopSpec(invariants=TI + [f"forall(j, implies(0 <= j < len({cont}), has(visited, {cont}[j])), trig={cont}[j])"]),
+                  2: LoopSpec(invariants=TI + [f"forall(j, implies(0 <= j < len({cont}), has(visited, {cont}[j])), trig={cont}[j])",
+                                               "has(visited, current)"])})
